@@ -34,6 +34,9 @@ class H(common.Harness):
     def mk(self, i, cs, state):
         M, eng = self.M, self.eng
         allowed = KINDS if any(isinstance(c, M.FullCaseCitation) for c in cs) else KINDS[:3]
+        fixk = self.params.get("fixk") or {}
+        if str(i) in fixk:
+            allowed = [fixk[str(i)]]
         kind = allowed[eng.choose([z3.Int(f"k{i}") == j for j in range(len(allowed))])]
         s, e, fs, fe = (z3.Int(f"{nm}{i}") for nm in ("s", "e", "fs", "fe"))
         tok = M.CitationToken("1 X 1", 0, 5, groups={"volume": "1", "reporter": "X", "page": "1"})
@@ -80,7 +83,7 @@ class H(common.Harness):
         self.sym = []
         cs = []
         state = {"prev_end": z3.IntVal(0)}
-        n = 1 + eng.choose([z3.Int("n") == k for k in range(1, self.Mn + 1)])
+        n = self.Mn if self.params.get("n_exact") else 1 + eng.choose([z3.Int("n") == k for k in range(1, self.Mn + 1)])
         for i in range(n):
             cs.append(self.mk(i, cs, state))
         self.cs = cs
@@ -340,6 +343,8 @@ REGRESSION_TEXTS = [
     # fixed: e1d1b05
     "A v. B, 550 U.S. at 556, 127 S.Ct. 1955",
     "Foo v. Bar, 1 U.S. 1 (1990), 2 S. Ct. 3, 4 L. Ed. 5. Id. at 6; Bar, supra, at 7.",
+    # fixed: 268c40b
+    "Foo v. Bar, 1 U.S. 1, 1 U.S. at 5, Bar at 2 S. Ct. 3.",
 ]
 
 
@@ -375,6 +380,17 @@ def check(rep):
     rep.oblige(n_ok)
     rep.oblige(n_ob - n_ok, ok=False)
     rep.distinct = agg["paths"]
+    if quick:
+        # one slice of the next size: exactly 4 citations, the first a full case citation and the last a reference
+        # (the smallest shape on which a reference can hide behind a parallel citation's full span: fix 268c40b)
+        rep.bounds.append("plus the slice of 4-citation lists that start with a full case citation and end with a reference")
+        aggx = common.explore_split("vf.harness.c03", {"M": 4, "n_exact": True, "fixk": {"0": "full_case", "3": "ref"}}, depth=4)
+        rep.merge_explore("filter_4_slice", aggx)
+        n_ob = sum(aggx["verdicts"].values())
+        n_ok = sum(v for k, v in aggx["verdicts"].items() if k.endswith(":valid"))
+        rep.oblige(n_ok)
+        rep.oblige(n_ob - n_ok, ok=False)
+        agg["findings"] = agg["findings"] + aggx["findings"]
     # the same clauses on the result of get_citations' own tail (dispatch + reference collection + filter)
     agg2 = common.explore_split("vf.harness.c03", {"M": M, "tail": True}, depth=4)
     rep.merge_explore("get_citations_tail", agg2)
